@@ -58,6 +58,16 @@ package utxo
 //@   ensures [C01] only_the_total_key_is_written: (forall k string :: k != xldgpb.MetaTablePrefix + UTXOTotalKey ==> sel(sel(batchOp, ifacePtr(batch)), k) == sel(sel(old(batchOp), ifacePtr(batch)), k) && sel(sel(batchVal, ifacePtr(batch)), k) == sel(sel(old(batchVal), ifacePtr(batch)), k))
 //@   ensures total_in_batch: sel(bigval, uv.utxoTotal) >= 0 ==> sel(sel(batchVal, ifacePtr(batch)), xldgpb.MetaTablePrefix + UTXOTotalKey) == canonBytes(sel(bigval, uv.utxoTotal))
 
+// When a batch is dropped the reported total goes back to what the table holds: the stored
+// value, or zero if no total was ever stored - never what memory happened to hold.
+//@ func UtxoVM.ReloadUtxoTotal
+//@   property C02
+//@   uses natNonneg
+//@   local utxoTotalBytes []byte
+//@   local findTotalErr error
+//@   ensures total_goes_back_to_the_stored_one: result == nil ==> uv.utxoTotal != nil && sel(bigval, uv.utxoTotal) == (findTotalErr == nil ? natOf(utxoTotalBytes) : 0)
+//@   ensures only_a_read_error_is_reported: result != nil ==> findTotalErr != nil
+
 // Cached balances move by exactly the delta of the output created / spent.
 //@ func UtxoVM.AddBalance
 //@   property C02
